@@ -210,10 +210,12 @@ func (c *Client) Upload(_, name string, src io.Reader) error {
 	}
 
 	// If not found, insert new tag into the database.
-	// If found, update the image ID
+	// If found, update the image ID. The attribute is assigned through a map: gorm
+	// ignores zero-value fields of a struct passed to Assign, so an empty image ID
+	// would silently keep the previous one.
 	res := c.db.
 		Where(Tag{Repository: repo, Tag: tag}).
-		Assign(Tag{ImageID: imageID}).
+		Assign(map[string]interface{}{"image_id": imageID}).
 		FirstOrCreate(&gormTag)
 
 	if res.Error != nil {
